@@ -14,6 +14,9 @@ for p in props:
         e = json.load(open(os.path.join(out, 'evidence', p + '.json')))
         e.pop('wall_s'); e.pop('seed'); e['coverage'].pop('slowest_shard_s', None)
         e['coverage'].get('counters', {}).pop('shard_seconds_max', None)
+        if 'F31' in e['coverage'].get('known_findings_seen', []):
+            # F31 prints uninitialised memory: how many of its instances happen to look right varies from run to run
+            e['coverage'].pop('violation_instances', None)
         seen.append((r.returncode, json.dumps(e, sort_keys=True)))
     same = all(s == seen[0] for s in seen)
     print(p, 'rc=%s' % [s[0] for s in seen], 'identical evidence' if same else 'EVIDENCE DIFFERS BETWEEN SEEDS')
